@@ -1,5 +1,9 @@
 import ObiVerif.Model.Fp
 import ObiVerif.Lemmas.FpBasic
+import ObiVerif.Lemmas.FpArith
+import ObiVerif.Lemmas.FpShift
+import ObiVerif.Lemmas.FpMul
+import ObiVerif.Lemmas.FpDiv
 /-!
 # C20 — fixed-precision integers agree with exact arithmetic (property theorems)
 
@@ -161,55 +165,68 @@ theorem u128_mul_hh_not_exact :
 /-! ## 256 bits -/
 
 theorem u256_add_exact (u v : U256) (hu : u.WF) (hv : v.WF) :
-    U256.add u v = if u.toNat + v.toNat < W ^ 4 then .ok (U256.ofNat (u.toNat + v.toNat)) else .error () := by
-  obtain ⟨h3, h2, h1, h0⟩ := hu
-  obtain ⟨k3, k2, k1, k0⟩ := hv
-  unfold U256.add bitsAdd64 U256.toNat U256.ofNat
-  simp only [W] at *
-  generalize hc0 : (u.w0 + v.w0 + 0) / 18446744073709551616 = c0
-  generalize hc1 : (u.w1 + v.w1 + c0) / 18446744073709551616 = c1
-  generalize hc2 : (u.w2 + v.w2 + c1) / 18446744073709551616 = c2
-  generalize hc3 : (u.w3 + v.w3 + c2) / 18446744073709551616 = c3
-  by_cases h : c3 = 0
-  · have : ¬ ((c3 != 0) = true) := by simp [h]
-    rw [if_neg this, if_pos (by omega)]; congr 2 <;> omega
-  · have : ((c3 != 0) = true) := by simp [h]
-    rw [if_pos this, if_neg (by omega)]
+    U256.add u v = if u.toNat + v.toNat < W ^ 4 then .ok (U256.ofNat (u.toNat + v.toNat)) else .error () :=
+  U256.add_spec u v hu hv
 
 theorem u256_sub_exact (u v : U256) (hu : u.WF) (hv : v.WF) :
-    U256.sub u v = if v.toNat ≤ u.toNat then .ok (U256.ofNat (u.toNat - v.toNat)) else .error () := by
-  obtain ⟨h3, h2, h1, h0⟩ := hu
-  obtain ⟨k3, k2, k1, k0⟩ := hv
-  unfold U256.sub U256.toNat U256.ofNat
-  have s0 := bitsSub64_spec h0 k0 (Nat.zero_le 1)
-  generalize bitsSub64 u.w0 v.w0 0 = r0 at *
-  obtain ⟨d0, b0⟩ := r0
-  have s1 := bitsSub64_spec h1 k1 s0.2.1
-  simp only [] at s1 ⊢
-  generalize bitsSub64 u.w1 v.w1 b0 = r1 at *
-  obtain ⟨d1, b1⟩ := r1
-  have s2 := bitsSub64_spec h2 k2 s1.2.1
-  simp only [] at s2 ⊢
-  generalize bitsSub64 u.w2 v.w2 b1 = r2 at *
-  obtain ⟨d2, b2⟩ := r2
-  have s3 := bitsSub64_spec h3 k3 s2.2.1
-  simp only [] at s3 ⊢
-  generalize bitsSub64 u.w3 v.w3 b2 = r3 at *
-  obtain ⟨d3, b3⟩ := r3
-  simp only [W] at *
-  by_cases h : b3 = 0
-  · have : ¬ ((b3 != 0) = true) := by simp [h]
-    rw [if_neg this, if_pos (by omega)]; congr 2 <;> omega
-  · have : ((b3 != 0) = true) := by simp [h]
-    rw [if_pos this, if_neg (by omega)]
+    U256.sub u v = if v.toNat ≤ u.toNat then .ok (U256.ofNat (u.toNat - v.toNat)) else .error () :=
+  U256.sub_spec u v hu hv
 
 theorem u256_cmp_exact (u v : U256) (hu : u.WF) (hv : v.WF) :
-    U256.cmp u v = if u.toNat < v.toNat then -1 else if u.toNat = v.toNat then 0 else 1 := by
-  obtain ⟨h3, h2, h1, h0⟩ := hu
-  obtain ⟨k3, k2, k1, k0⟩ := hv
-  unfold U256.cmp U256.toNat
-  simp only [W] at *
-  repeat' split
-  all_goals first | rfl | omega
+    U256.cmp u v = if u.toNat < v.toNat then -1 else if u.toNat = v.toNat then 0 else 1 :=
+  U256.cmp_spec u v hu hv
+
+/-! ## Shifts (every shift amount `n : Nat`, including `n ≥` the width)
+
+Proofs are in `Lemmas/FpShift.lean`: `Nat.lor` / `Nat.land` on disjoint bit ranges become `+`, `%`, `/`,
+then a case split on `n` as in `LeftShift64`. -/
+
+theorem u64_shl_exact (u : U64) (n : Nat) (hu : u.WF) :
+    (U64.leftShift u n).toNat = (u.toNat * 2 ^ n) % W := (U64.leftShift_spec u n hu).2
+theorem u64_shl_wf (u : U64) (n : Nat) (hu : u.WF) : (U64.leftShift u n).WF := (U64.leftShift_spec u n hu).1
+theorem u64_shr_exact (u : U64) (n : Nat) (hu : u.WF) :
+    (U64.rightShift u n).toNat = u.toNat / 2 ^ n := (U64.rightShift_spec u n hu).2
+theorem u64_shr_wf (u : U64) (n : Nat) (hu : u.WF) : (U64.rightShift u n).WF := (U64.rightShift_spec u n hu).1
+
+theorem u128_shl_exact (u : U128) (n : Nat) (hu : u.WF) :
+    (U128.leftShift u n).toNat = (u.toNat * 2 ^ n) % (W * W) := (U128.leftShift_spec u n hu).2
+theorem u128_shl_wf (u : U128) (n : Nat) (hu : u.WF) : (U128.leftShift u n).WF := (U128.leftShift_spec u n hu).1
+theorem u128_shr_exact (u : U128) (n : Nat) (hu : u.WF) :
+    (U128.rightShift u n).toNat = u.toNat / 2 ^ n := (U128.rightShift_spec u n hu).2
+theorem u128_shr_wf (u : U128) (n : Nat) (hu : u.WF) : (U128.rightShift u n).WF := (U128.rightShift_spec u n hu).1
+
+theorem u256_shl_exact (u : U256) (n : Nat) (hu : u.WF) :
+    (U256.leftShift u n).toNat = (u.toNat * 2 ^ n) % W ^ 4 := (U256.leftShift_spec u n hu).2
+theorem u256_shl_wf (u : U256) (n : Nat) (hu : u.WF) : (U256.leftShift u n).WF := (U256.leftShift_spec u n hu).1
+theorem u256_shr_exact (u : U256) (n : Nat) (hu : u.WF) :
+    (U256.rightShift u n).toNat = u.toNat / 2 ^ n := (U256.rightShift_spec u n hu).2
+theorem u256_shr_wf (u : U256) (n : Nat) (hu : u.WF) : (U256.rightShift u n).WF := (U256.rightShift_spec u n hu).1
+
+/-! ## `Uint128.QuoRem64` -/
+
+/-- `bits.Div64` never panics on either path when `v ≠ 0`; quotient and remainder are exact.
+(`v < W` holds for any Go `uint64` but is not needed.) -/
+theorem u128_quoRem64_exact (u : U128) (v : Nat) (hu : u.WF) (hv : v ≠ 0) :
+    U128.quoRem64 u v = .ok (U128.ofNat (u.toNat / v), u.toNat % v) := by
+  obtain ⟨q, h, hq, hval⟩ := U128.quoRem64_spec u v hu hv
+  rw [h, U128.eq_ofNat_toNat hq, hval]
+
+/-- same statement in "quotient / remainder" form -/
+theorem u128_quoRem64_exact' (u : U128) (v : Nat) (hu : u.WF) (hv : v ≠ 0) :
+    ∃ q r, U128.quoRem64 u v = .ok (q, r) ∧ q.WF ∧ q.toNat = u.toNat / v ∧ r = u.toNat % v := by
+  obtain ⟨q, h, hq, hval⟩ := U128.quoRem64_spec u v hu hv
+  exact ⟨q, _, h, hq, hval, rfl⟩
+
+/-- hypotheses satisfiable on a non-trivial value (both `bits.Div64` calls are used: `u.w1 ≥ v`) -/
+example : U128.WF ⟨7, 5⟩ ∧ (3 : Nat) ≠ 0 ∧ U128.quoRem64 ⟨7, 5⟩ 3 = .ok (⟨2, 6148914691236517207⟩, 0) :=
+  ⟨by decide, by decide, rfl⟩
+
+/-! ## `Uint256.Mul` -/
+
+/-- schoolbook 4×4 product: exact when it fits in 256 bits, `.error ()` (Go panic) exactly otherwise.
+Proof by the row invariant `U256.mulOuter_spec` in `Lemmas/FpMul.lean`. -/
+theorem u256_mul_exact (u v : U256) (hu : u.WF) (hv : v.WF) :
+    U256.mul u v = if u.toNat * v.toNat < W ^ 4 then .ok (U256.ofNat (u.toNat * v.toNat)) else .error () :=
+  U256.mul_spec u v hu hv
 
 end ObiVerif.Props.C20
